@@ -23,6 +23,8 @@ var c05Lookalikes = []string{"", "1", "1.5", "true", "null", "~", "yes", "no", "
 	"a\nb", " lead", "trail ", "{}", "[]", "a.b", "é", "\t", "=", "[t]", "a\n---\nb", "a\n+++\nb", "<<", "*x", "&x", "!t", "|", ">", "%", "@", "`", ".inf", "-", "?", ":", ",",
 	"NULL", "True", "1_000", "0.1.2", "\\n", "x", "k: [1", "\"", "'", "a #b", "2001-01-01T00:00:00Z", "010", "+1", ".5", "y", "n", " ", "a\r\nb", " ",
 	// multi-line strings whose white space a block scalar would swallow or mistake for indentation
+	// text that looks like the escapes an encoder may itself produce
+	"\\u003c", "a\\u003eb", "\\u0026", "<&>", "\\n", "\\\\", "\\\"",
 	"\n", "\nx", "x\n", "\n\n", "x\n\n", "  x\ny", "x\n  y", "x\n\ty", "\tx\ny", "x\n \ny", "x\n\t\n", "a\n\nb", "\n  \t"}
 
 var c05Numbers = []any{0, 1, -1, 2147483648, math.MaxInt64, math.MinInt64, 0.1, 1.5, 2.0, 1e21, 1e-7, -0.5,
@@ -250,9 +252,16 @@ func buildC05(tier string) *core.Plan {
 				return
 			}
 			os.MkdirAll(filepath.Join(dir, "o"), 0o755)
+			// the output file's name has one dot, or several (only the last part is the extension)
+			outName := "out." + cs.O
+			if i%5 == 1 {
+				outName = "out.v2." + cs.O
+			} else if i%5 == 3 {
+				outName = "a.toml.b.json." + cs.O
+			}
 			if cs.O != "" && i%2 == 0 {
 				// the output file already exists and is longer than what will be written
-				os.WriteFile(filepath.Join(dir, "o", "out."+cs.O), []byte(strings.Repeat("old: content that must not survive\n", 40)), 0o644)
+				os.WriteFile(filepath.Join(dir, "o", outName), []byte(strings.Repeat("old: content that must not survive\n", 40)), 0o644)
 			}
 			// the same options in every spelling the flag parser accepts, before or after the input
 			var opts []string
@@ -262,11 +271,11 @@ func buildC05(tier string) *core.Plan {
 					opts = append(opts, "-f", cs.F)
 				}
 				if cs.O != "" {
-					opts = append(opts, "-o", "o/out."+cs.O)
+					opts = append(opts, "-o", "o/"+outName)
 				}
 			case 1:
 				if cs.O != "" {
-					opts = append(opts, "--output=o/out."+cs.O)
+					opts = append(opts, "--output=o/"+outName)
 				}
 				if cs.F != "" {
 					opts = append(opts, "--format="+cs.F)
@@ -276,14 +285,14 @@ func buildC05(tier string) *core.Plan {
 					opts = append(opts, "--format", cs.F)
 				}
 				if cs.O != "" {
-					opts = append(opts, "--output", "o/out."+cs.O)
+					opts = append(opts, "--output", "o/"+outName)
 				}
 			case 3:
 				if cs.F != "" {
 					opts = append(opts, "-f"+cs.F)
 				}
 				if cs.O != "" {
-					opts = append(opts, "-oo/out."+cs.O)
+					opts = append(opts, "-oo/"+outName)
 				}
 			}
 			var args []string
@@ -312,7 +321,7 @@ func buildC05(tier string) *core.Plan {
 			}
 			written := so
 			if cs.O != "" {
-				b, rerr := os.ReadFile(filepath.Join(dir, "o", "out."+cs.O))
+				b, rerr := os.ReadFile(filepath.Join(dir, "o", outName))
 				if rerr != nil {
 					c.Fail("format-selection", "no-output-file", wit, rerr.Error())
 					return
